@@ -8,6 +8,7 @@ CONSTANTS
   MaxRepl = 3
   MaxWrites = 2
   NoSkew = TRUE
+  ArmQuota = 0
   EnableRename = FALSE
 INIT Init
 NEXT Next
